@@ -658,6 +658,11 @@ func stamp(t *rapid.T, s *Scenario, cfg Config) {
 	}
 	active := map[int]bool{}
 	s.Slow = cfg.LongGaps && percent(t, "pace", cfg.SlowPercent)
+	// a quarter of the scenarios come from a sensor with a coarse clock: bursts of packets share a timestamp
+	equalPercent := cfg.EqualStampPercent
+	if equalPercent > 0 && percent(t, "coarse clock", 25) {
+		equalPercent = 45
+	}
 	for gi, p := range s.Packets {
 		if gi > 0 {
 			var d int64
@@ -694,7 +699,7 @@ func stamp(t *rapid.T, s *Scenario, cfg Config) {
 			}
 			// two packets of different conversations may carry the same capture timestamp (a burst below the clock's resolution)
 			// (never two packets of one conversation: their order would no longer be defined by the capture)
-			if cfg.EqualStampPercent > 0 && s.Packets[gi-1].Conv != p.Conv && last[p.Conv] < now && percent(t, "equal timestamp", cfg.EqualStampPercent) {
+			if cfg.EqualStampPercent > 0 && s.Packets[gi-1].Conv != p.Conv && last[p.Conv] < now && percent(t, "equal timestamp", equalPercent) {
 				d = 0
 				s.EqualStamps++
 			}
